@@ -13,6 +13,9 @@ mod framing;
 mod output;
 mod symsync;
 mod timeddata;
+#[cfg(feature = "verif-hooks")]
+#[allow(missing_docs)]
+pub mod verif;
 mod waveform;
 
 #[cfg(not(test))]
@@ -405,6 +408,9 @@ impl SameReceiver {
     #[inline]
     #[must_use]
     fn process_linklayer_symbol(&mut self, symbol: &SymbolEstimate) -> LinkState {
+        #[cfg(feature = "verif-hooks")]
+        verif::trace_tick(self.input_sample_counter);
+
         // 3. power and access code correlation squelch
         let (is_resync, squelch_out) = match self.squelch.input(&symbol.data) {
             SquelchState::NoCarrier => {
@@ -444,6 +450,9 @@ impl SameReceiver {
 
         // 4. adaptive equalization
         let (byte_est, adaptive_err) = self.equalizer.input(&squelch_out.samples);
+
+        #[cfg(feature = "verif-hooks")]
+        verif::trace_byte(byte_est);
 
         trace!(
             "byte: {:#04x} \"{:?}\", sym pwr: {:0.2}, adapt err: {:0.2}",
